@@ -147,8 +147,11 @@ CHECKS = {
              "parked call proceeds next; 25% run free. Oracle: every operation returns (deadlock detector: nothing parked, nothing finishing for 10 s); the mock's per-handle "
              "per-open-file and per-directory-iterator in-call counters never exceed 1; per fid, (bound at the start) + (operations that reported binding it) - (clunk/remove "
              "operations that did not report 'unknown fid') must equal (bound at the end) - a necessary condition for the results to be those of some sequential order; no fid "
-             "locked or half-bound at quiescence; race detector. Non-trivial = two operations on the same fid overlapped in real time.",
-        require_classes=dict(quick=["same_fid_overlap", "gated", "free_running"], thorough=[]),
+             "locked or half-bound at quiescence; the whole invocation/return history with every recorded result (error class, qids, data, counts, stat fields) is linearizable "
+             "w.r.t. a pure re-statement of the C08 reference model plus the mock's tree (porcupine, 10 s search budget per history; class lin_checked; lin_tainted = the "
+             "explanation passed through a state the property text leaves undetermined; lin_budget_exhausted = inconclusive for that history); race detector. "
+             "Non-trivial = two operations on the same fid overlapped in real time.",
+        require_classes=dict(quick=["same_fid_overlap", "gated", "free_running", "lin_checked"], thorough=[]),
         assumptions=["clients never allocate the same new fid from two requests at once (the property's proviso)",
                      "interleavings are controlled at file-system-call granularity plus whatever the Go scheduler adds; race freedom is 'no report on the explored runs'"],
     ),
